@@ -89,16 +89,19 @@ CAPS = {
 }
 
 
-def serialize(af, fmt, cdata=False, decl=True):
-    """the canonical textual serialisation of an abstract feed in one format (str)"""
+def serialize(af, fmt, cdata=False, decl=True, typed=False):
+    """the canonical textual serialisation of an abstract feed in one format (str).
+    typed=True: plain text is escaped once more where the format's element is HTML-typed (RSS description), so that the
+    document really SAYS the abstract text (C02); typed=False keeps the single escape (C11 / C20 / C10 only need well-formed feeds)."""
     caps = CAPS[fmt]
+    H = (lambda s, c=False: T(esc(s), c)) if typed else T
     head = '<?xml version="1.0" encoding="utf-8"?>\n' if decl else ""
     if fmt in ("rss091", "rss092", "rss20"):
         ver = {"rss091": "0.91", "rss092": "0.92", "rss20": "2.0"}[fmt]
-        out = [head, '<rss version="%s"><channel>' % ver, "<title>%s</title><link>%s</link><description>%s</description>" % (T(af["title"], cdata), esc(af["link"]), T(af["description"], cdata)),
+        out = [head, '<rss version="%s"><channel>' % ver, "<title>%s</title><link>%s</link><description>%s</description>" % (T(af["title"], cdata), esc(af["link"]), H(af["description"], cdata)),
                "<lastBuildDate>%s</lastBuildDate>" % d822(af["updated"])]
         for e in af["entries"]:
-            out.append("<item><title>%s</title><link>%s</link><description>%s</description>" % (T(e["title"], cdata), esc(e["link"]), T(e["summary"], cdata)))
+            out.append("<item><title>%s</title><link>%s</link><description>%s</description>" % (T(e["title"], cdata), esc(e["link"]), H(e["summary"], cdata)))
             if "id" in caps:
                 out.append('<guid isPermaLink="false">%s</guid>' % esc(e["id"]))
             if "author" in caps:
@@ -115,10 +118,10 @@ def serialize(af, fmt, cdata=False, decl=True):
     if fmt == "rss10":
         out = [head, '<rdf:RDF xmlns:rdf="http://www.w3.org/1999/02/22-rdf-syntax-ns#" xmlns="http://purl.org/rss/1.0/" xmlns:dc="http://purl.org/dc/elements/1.1/">',
                '<channel rdf:about="%s"><title>%s</title><link>%s</link><description>%s</description><dc:date>%s</dc:date></channel>' % (
-                   aesc(af["link"]), T(af["title"], cdata), esc(af["link"]), T(af["description"], cdata), d3339(af["updated"]))]
+                   aesc(af["link"]), T(af["title"], cdata), esc(af["link"]), H(af["description"], cdata), d3339(af["updated"]))]
         for e in af["entries"]:
             out.append('<item rdf:about="%s"><title>%s</title><link>%s</link><description>%s</description><dc:creator>%s</dc:creator><dc:date>%s</dc:date>' % (
-                aesc(e["id"]), T(e["title"], cdata), esc(e["link"]), T(e["summary"], cdata), esc(e["author_name"]), d3339(e["updated"])))
+                aesc(e["id"]), T(e["title"], cdata), esc(e["link"]), H(e["summary"], cdata), esc(e["author_name"]), d3339(e["updated"])))
             out += ["<dc:subject>%s</dc:subject>" % T(c, cdata) for c in e["categories"]]
             out.append("</item>")
         out.append("</rdf:RDF>")
